@@ -576,7 +576,7 @@ pub fn gen120(tier: &str, r: &mut Rng, emit: &mut dyn FnMut(Vec<u64>)) {
         for round in 0..(if thorough { 4 } else { 2 }) {
             let mut transfers: Vec<Vec<Step>> = Vec::new();
             for (t, (src, code, path)) in keyset.iter().enumerate() {
-                let mut q = ReqSpec::get(&path[..]); q.code = *code; q.token = vec![t as u8 + 1, round as u8]; q.mid = (100 * (t + 1)) as u16;
+                let mut q = ReqSpec::get(&path[..]); q.code = *code; q.token = vec![t as u8 + 1, round as u8]; q.mid = (100 * (t + 1)) as u16 + (round % 2) as u16;   // odd ids: the client's token changes length between requests
                 let upload = *code == 3 || (*code == 2 && round % 2 == 0);
                 let steps = if upload {
                     let body = r.bytes(16 * 3 + 5 + t);
